@@ -50,10 +50,16 @@ def cases(tier, seed):
         yield dict(kind='bfs', mini=m)
     # round trips
     for isz in (1, 2, 4, 8):
-        for cbs in (isz, 2 * isz, 3 * isz + 1, 7 * isz, 1 << 22):
-            yield dict(kind='roundtrip', itemsize=isz, cbs=cbs, nmax=24 if tier == 'quick' else 64)
+        for cbs in sorted({isz, 2 * isz - 1 if isz > 1 else 2, isz + isz // 2 + 1, 2 * isz, 3 * isz + 1, 7 * isz, 100, 1 << 22}):
+            if cbs < isz:
+                continue
+            yield dict(kind='roundtrip', itemsize=isz, cbs=cbs, nmax=80 if tier == 'quick' else 300)
     # one compressor object used for several blocks in a row (also after a truncated read): no state may survive a call
     yield dict(kind='reuse', depth=2 if tier == 'quick' else 3)
+    # two decompressions running on ONE compressor object at the same time: every interleaving of their chunk reads
+    yield dict(kind='interleave', bound=2)
+    # typed / multi-dimensional output buffers
+    yield dict(kind='typedout')
     for bs in ((1, 3, 7, 64, -1) if tier == 'quick' else (1, 2, 3, 5, 7, 11, 64, 4096, -1)):
         yield dict(kind='asdf', io_block_size=bs)
 
@@ -365,5 +371,93 @@ def run_reuse(case):
     return dict(problems=probs[:3], evals=n, traces=n, states=len(calls) ** case['depth'], transitions=n, nt=nt, extra=dict(reuse_calls=n))
 
 
+def run_interleave(case):
+    """E-SCHED over two concurrent decompress calls on one BloscCompressor object; scheduling points = each request for the
+    next read chunk.  All schedules up to the preemption bound; every call must return its own payload."""
+    import blosc
+    from vf import twin
+    from abacusnbody.data.asdf import BloscCompressor
+    specs = [dict(nitems=6, itemsize=4, cbs=8), dict(nitems=4, itemsize=8, cbs=16)]
+    streams = [make_stream(s) for s in specs]
+    probs = []
+    nexec = 0
+    outcomes = set()
+    # chunkings: cut every frame in the middle (so partially reassembled frames are in flight) / whole stream
+    def cutpoints(bounds, L):
+        c = []
+        for (s0, b, e, r) in bounds:
+            c += [b + (e - b) // 2, e]
+        return sorted(set(x for x in c if 0 < x < L))
+    plans = []
+    for (stream, pay, bounds) in streams:
+        L = len(stream)
+        cp = cutpoints(bounds, L)
+        plans.append([b - a for a, b in zip([0] + cp, cp + [L])])
+
+    def run_one(prefix):
+        sch = twin.Scheduler(prefix)
+        rt = twin.Runtime(mode='sched', scheduler=sch)
+        comp = BloscCompressor()
+        res = [None, None]
+
+        def body(i):
+            stream, pay, bounds = streams[i]
+            big = np.full(len(pay) + 2 * G, SENT, dtype=np.uint8)
+            out = memoryview(big)[G:G + len(pay)]
+
+            def feeder():
+                o = 0
+                for c in plans[i]:
+                    sch.point(i, ('chunk', o))
+                    yield stream[o:o + c]
+                    o += c
+            try:
+                ret = comp.decompress(feeder(), out)
+                res[i] = (ret, big[G:G + len(pay)].tobytes(), None)
+            except Exception as e:
+                res[i] = (None, None, f'{type(e).__name__}: {e}')
+        rt.regions.append(twin.Region(0, 2, 'interleave'))
+        sch.run_region(rt, 2, body)
+        return sch, res
+    for item in twin.explore(run_one, case['bound'], max_exec=5000):
+        if item[0] == 'CAPPED':
+            break
+        choices, pre, res = item
+        nexec += 1
+        ok = all(r is not None and r[2] is None and r[0] == len(streams[i][1]) and r[1] == streams[i][1] for i, r in enumerate(res))
+        outcomes.add(ok)
+        if not ok and not probs:
+            probs.append(dict(sig='interleave:concurrent-calls-on-one-object', msg=f'schedule {choices} ({pre} preemptions) of two decompress calls sharing one compressor object: results {[(r[0], r[2]) if r else None for r in res]}'))
+    return dict(problems=probs, evals=nexec, traces=nexec, states=nexec, transitions=nexec * sum(len(p) for p in plans), nt=[('interleave', case['bound'])],
+                extra=dict(interleaved_schedules=nexec))
+
+
+def run_typedout(case):
+    """the output buffer handed to decompress may be any contiguous buffer (typed, N-d), not only bytes"""
+    from abacusnbody.data.asdf import BloscCompressor
+    probs = []
+    n = 0
+    for spec in (dict(nitems=12, itemsize=8, cbs=24), dict(nitems=9, itemsize=4, cbs=8)):
+        stream, pay, bounds = make_stream(spec)
+        L = len(stream)
+        dt = {8: 'f8', 4: 'i4'}[spec['itemsize']]
+        for shape in ((spec['nitems'],), (spec['nitems'] // 3, 3)):
+            for chunks in ([L], [7] * (L // 7) + ([L % 7] if L % 7 else []), [L // 2, L - L // 2], [1] * L):
+                arr = np.zeros(shape, dtype=dt)
+                o = 0
+                blocks = []
+                for c in chunks:
+                    blocks.append(stream[o:o + c]); o += c
+                try:
+                    ret = BloscCompressor().decompress(iter(blocks), memoryview(arr))
+                    err = None
+                except Exception as e:
+                    ret, err = None, f'{type(e).__name__}: {e}'
+                n += 1
+                if err or ret != len(pay) or arr.tobytes() != pay:
+                    probs.append(dict(sig='typedout:differs', msg=f'{stream_desc(spec)} into a {dt}{shape} buffer, chunks of {chunks[:2]}..: ret={ret} err={err}'))
+    return dict(problems=probs[:3], evals=n, traces=n, states=n, transitions=n, nt=[('typedout', n)], extra=dict(typed_output_runs=n))
+
+
 def run(case):
-    return {'reuse': run_reuse, 'bfs': run_bfs, 'brute': run_brute, 'roundtrip': run_roundtrip, 'asdf': run_asdf}[case['kind']](case)
+    return {'interleave': run_interleave, 'typedout': run_typedout, 'reuse': run_reuse, 'bfs': run_bfs, 'brute': run_brute, 'roundtrip': run_roundtrip, 'asdf': run_asdf}[case['kind']](case)
